@@ -35,8 +35,8 @@ impl Default for GenCfg {
     }
 }
 
-pub struct Gen<'a> {
-    pub rng: &'a mut TestRng,
+pub struct Gen<'a, R: Rng = TestRng> {
+    pub rng: &'a mut R,
     pub cfg: GenCfg,
     pub faults: usize,
 }
@@ -91,8 +91,8 @@ pub const FLOAT_POOL: &[f64] = &[
     7.006492321624085e-46,
 ];
 
-impl<'a> Gen<'a> {
-    pub fn new(rng: &'a mut TestRng, cfg: GenCfg) -> Self {
+impl<'a, R: Rng> Gen<'a, R> {
+    pub fn new(rng: &'a mut R, cfg: GenCfg) -> Self {
         Gen { rng, cfg, faults: 0 }
     }
 
